@@ -26,7 +26,7 @@ from . import rewrite
 from .source import ExtractError, mask, match_close, norm
 
 DIRECTIVE = re.compile(r'^\s*//@(\w+!?)\s*(.*)$')
-RAW_KINDS = ('spec', 'loop', 'before', 'after', 'sig', 'prefix', 'closure')
+RAW_KINDS = ('spec', 'loop', 'before', 'after', 'sig', 'prefix', 'closure', 'tail')
 
 
 class ItemSpec:
@@ -245,6 +245,15 @@ def build_item(src, spec, idx, log):
             text = text[:pos] + to + text[pos + len(frm):]
             done = 1
         log['subs'].append({'item': what, 'from': frm, 'to': to, 'count': done})
+    # 3a. closure annotations (R10): typed params + ensures spliced onto the N-th closure, body verbatim.
+    #     Applied from the last closure to the first so ordinals stay valid.
+    cls = [b for b in spec.blocks if b[0] == 'closure']
+    for kind, arg, lines, tline in sorted(cls, key=lambda b: -int(b[1])):
+        okey = (kind, arg, tline)
+        m0 = mask(text)
+        he = _header_end(m0) if it.kind == 'fn' else 0
+        text = rewrite.annotate_closure(text, he or 0, int(arg), lines, lambda l: _tag(l, idx, okey))
+        log['rewrites'].append({'rule': 'R10', 'item': what, 'count': 1, 'note': 'closure #%s given explicit signature/ensures' % arg})
     # 3. splices: collect (position, text, originkind) then apply back to front
     m = mask(text)
     inserts = []   # (pos, [lines], originkey)
@@ -302,14 +311,42 @@ def build_item(src, spec, idx, log):
                     break
                 j += 1
             inserts.append((j, [''] + lines, okey))
+        elif kind == 'tail':
+            # before the tail expression of the fn body (or at its end if there is none)
+            close = match_close(m, hdr_end)
+            j = hdr_end + 1
+            last = hdr_end + 1
+            depth = 0
+            while j < close:
+                c = m[j]
+                if c in '([{':
+                    depth += 1
+                elif c in ')]}':
+                    depth -= 1
+                    if depth == 0 and c == '}':
+                        # block statement end unless followed by an operator / method call / else
+                        k = j + 1
+                        while k < close and m[k].isspace():
+                            k += 1
+                        if not (m.startswith('else', k) or (k < close and m[k] in '.?')):
+                            last = j + 1
+                elif c == ';' and depth == 0:
+                    last = j + 1
+                j += 1
+            if m[last:close].strip() == '':
+                inserts.append((close, [''] + lines, okey))
+            else:
+                k = last
+                while m[k].isspace():
+                    k += 1
+                ls = text.rfind('\n', 0, k) + 1
+                inserts.append((ls if text[ls:k].strip() == '' else k, lines if text[ls:k].strip() == '' else [''] + lines, okey))
         elif kind == 'sig':
             header_override = (lines, okey)
         elif kind == 'prefix':
             pass
         elif kind == 'closure':
-            # N-th closure `|..|` followed by a block: splice `-> (b: T) ensures ..` text before its `{`
-            pos = rewrite.closure_body_open(m, hdr_end or 0, int(arg))
-            inserts.append((pos, lines, okey))
+            pass   # handled before the other splices (changes the text)
     # apply inserts back to front, with markers
     inserts.sort(key=lambda x: x[0], reverse=True)
     for pos, lines, okey in inserts:
